@@ -1,5 +1,5 @@
 (* C10 - WriteTo emits one complete frame and reports its size truthfully. *)
-From MQ Require Import Model.Render Proofs.BytesP Proofs.EncP Proofs.RenderP Proofs.TotalP.
+From MQ Require Import Model.Render Model.Fill Proofs.BytesP Proofs.EncP Proofs.RenderP Proofs.TotalP Proofs.FillP.
 From Coq Require Import Strings.String. From Coq Require Import List. Import ListNotations. Open Scope N_scope.
 
 (* the frame: first byte, remaining length, exactly that many bytes *)
@@ -48,6 +48,65 @@ Theorem C10_string_size : forall k p bs ts, k <> KUndefined ->
   encode_pkt k p = Some bs -> string_toks k p = Some ts -> size_token ts (len bs).
 Proof. exact string_size. Qed.
 Print Assumptions C10_string_size.
+
+(* The Go code does not build byte lists: every fill writes at a position
+   into a buffer of fixed length behind a capacity guard and returns the
+   width; WriteTo runs the packet's fill on the nil slice to learn the size,
+   allocates, and runs it again (Model/Fill.v).  For every packet type,
+   packet, buffer and position the positional run agrees with the byte-list
+   reading used by all other theorems: it panics exactly when that is None;
+   otherwise it returns i + the frame's length whether or not anything could
+   be written, keeps the buffer's length, and - if the frame fits - leaves
+   the frame at i and every other byte of the buffer untouched. *)
+Theorem C10_fill_positional : forall k p buf i,
+  match encode_pkt k p with
+  | None => pfill_pkt k p buf i = None
+  | Some bs => exists buf',
+      pfill_pkt k p buf i = Some (buf', (i + length bs)%nat) /\
+      length buf' = length buf /\
+      ((i + length bs <= length buf)%nat ->
+       buf' = firstn i buf ++ bs ++ skipn (i + length bs) buf)
+  end.
+Proof. exact pfill_pkt_ok. Qed.
+Print Assumptions C10_fill_positional.
+
+(* the same for any IR program that never calls rawdata.fillProp *)
+Theorem C10_fill_program : forall es p buf i, noraw_list es = true ->
+  match run_enc es p with
+  | None => pfill es p buf i = None
+  | Some bs => exists buf',
+      pfill es p buf i = Some (buf', (i + length bs)%nat) /\
+      length buf' = length buf /\
+      ((i + length bs <= length buf)%nat ->
+       buf' = firstn i buf ++ bs ++ skipn (i + length bs) buf)
+  end.
+Proof. intros es p buf i H. exact (pfill_ok es p buf i H). Qed.
+Print Assumptions C10_fill_program.
+
+(* width() = fill(_LEN, 0) is the frame's length, and the second pass fills
+   the buffer of that size with exactly the frame *)
+Theorem C10_dry_run : forall k p bs, encode_pkt k p = Some bs ->
+  pfill_pkt k p [] 0%nat = Some ([], length bs) /\
+  pfill_pkt k p (make_buf (length bs)) 0%nat = Some (bs, length bs).
+Proof. intros k p bs H. split; [exact (dry_run_width k p bs H)|exact (second_pass k p bs H)]. Qed.
+Print Assumptions C10_dry_run.
+
+(* WriteTo as the Go code runs it (two passes, guarded positional writes)
+   is WriteTo of the byte-list model, so C10_one_write, C10_undefined,
+   C10_total and the theorems of C01/C02 speak about the two-pass code *)
+Theorem C10_two_pass : forall k p w, write_to2 k p w = write_to k p w.
+Proof. exact two_pass. Qed.
+Print Assumptions C10_two_pass.
+
+Example C10_two_pass_example :
+  write_to2 KPublish (run_calls KPublish [SetTopicName [x61; x2f; x62]; SetPayload [x68; x69]]) Accept
+  = Some {| w_n := 10; w_err := None;
+            w_calls := [[x30; x08; x00; x03; x61; x2f; x62; x00; x68; x69]] |}
+  /\ pfill_pkt KPingReq (ctor KPingReq) [xaa; xaa; xaa; xaa; xaa] 2
+      = Some ([xaa; xaa; xc0; x00; xaa], 4%nat)
+  /\ pfill_pkt KPingReq (ctor KPingReq) [xaa; xaa; xaa] 2
+      = Some ([xaa; xaa; xc0], 4%nat).
+Proof. vm_compute. repeat split. Qed.
 
 Example C10_example :
   write_to KPubAck (run_calls KPubAck [SetPacketID 1]) (Short 3 (EReader 7))
